@@ -643,8 +643,8 @@ pub fn make(prop: &str) -> Option<SCheck> {
                     && (probe(o, "remove_present") + probe(o, "amend_present") + probe(o, "restores") > 0)
             },
             twin: false,
-            quick: 120_000,
-            thorough: 4_000_000,
+            quick: 1_500_000,
+            thorough: 30_000_000,
             rule: "seeded histories (engine S) of add/match/cancel/move/amend/replace/read/rebuild over all 7 order types; aggregates compared with sums over the level's own listing after EVERY operation; non-trivial = at least 3 ops with a trade (partial fill, replenishment or multi-maker match) AND a successful cancel/amend/rebuild; distinct = distinct digest of all responses and post-operation states",
         },
         "C02" => SCheck {
@@ -656,8 +656,8 @@ pub fn make(prop: &str) -> Option<SCheck> {
             },
             nontrivial: |o| probe(o, "match_multi_tx") > 0 || probe(o, "replenished") > 0,
             twin: false,
-            quick: 120_000,
-            thorough: 4_000_000,
+            quick: 1_500_000,
+            thorough: 30_000_000,
             rule: "engine S histories incl. off-price orders; per-match arithmetic, transaction fields, transaction-id freshness, filled-id set, lifetime ledger traded<=supplied; plus one generated MatchResult::add_transaction sequence per run; non-trivial = a match with several transactions or a replenishment",
         },
         "C04" => SCheck {
@@ -674,8 +674,8 @@ pub fn make(prop: &str) -> Option<SCheck> {
                     || (probe(o, "amend_present") > 0 && probe(o, "match_multi_tx") > 0)
             },
             twin: false,
-            quick: 150_000,
-            thorough: 5_000_000,
+            quick: 1_500_000,
+            thorough: 30_000_000,
             rule: "engine S histories rich in partial fills, cancel-then-re-add of the same id, same-price amends and replenishment, each ending in a draining match; priority-stamp monitor over every transaction; non-trivial = a partial fill with other orders resting, a re-add of a cancelled id, or an amend followed by a multi-maker match",
         },
         "C05" => SCheck {
@@ -683,12 +683,14 @@ pub fn make(prop: &str) -> Option<SCheck> {
             profile: Profile {
                 probes: true,
                 restores: false,
+                zero: true,
+                zero_pct: 40,
                 ..d
             },
             nontrivial: |o| probe(o, "probe_calls") > 0 || probe(o, "replenished") > 0,
             twin: false,
-            quick: 40_000,
-            thorough: 1_500_000,
+            quick: 1_500_000,
+            thorough: 30_000_000,
             rule: "the documented rule (DESIGN A.3) is the oracle of every maker visit of every match in engine S histories (states after fills, replenishments, amends) and of read-only match_against probes on every resting order; non-trivial = a run with probes or replenishment",
         },
         "C06" => SCheck {
@@ -705,14 +707,16 @@ pub fn make(prop: &str) -> Option<SCheck> {
                     > 0
             },
             twin: false,
-            quick: 150_000,
-            thorough: 5_000_000,
+            quick: 1_500_000,
+            thorough: 30_000_000,
             rule: "engine S histories with zero quantities enabled (display 0 at add, amend to 0, replenish amount 0); every match runs under a step budget of 64 x (model visit bound + resting orders + 8) instrumented operations; non-trivial = the history put a zero-display order on the book",
         },
         "C07" => SCheck {
             prop: "C07",
             profile: Profile {
                 update_mix: true,
+                zero: true,
+                zero_pct: 40,
                 ..d
             },
             nontrivial: |o| {
@@ -720,8 +724,8 @@ pub fn make(prop: &str) -> Option<SCheck> {
                     && (probe(o, "partial_fill") + probe(o, "replenished") > 0)
             },
             twin: true,
-            quick: 80_000,
-            thorough: 2_500_000,
+            quick: 1_500_000,
+            thorough: 30_000_000,
             rule: "engine S histories mixing all five update kinds on present/absent ids, equal/other prices, all types, after fills and replenishments; before/after relations on listing and return value; twin run (same history with read-only calls removed) must give identical responses and final state; non-trivial = a successful cancel/move/amend in a history that also had a partial fill or replenishment",
         },
         "C10" => SCheck {
@@ -733,8 +737,8 @@ pub fn make(prop: &str) -> Option<SCheck> {
             },
             nontrivial: |o| probe(o, "restores") > 0 && o.ops_run >= 3,
             twin: false,
-            quick: 100_000,
-            thorough: 3_000_000,
+            quick: 1_500_000,
+            thorough: 30_000_000,
             rule: "engine S histories in which the live level is rebuilt through each of 7 paths (from_snapshot, From<&Snapshot>, package, package JSON, serde JSON, text, PriceLevelData) with aggregate fields of the intermediate form corrupted in half of the rebuilds; content, derived aggregates and listing shape checked, history continues on the rebuilt level; non-trivial = at least one rebuild in a history of >= 3 ops",
         },
         "C15S" => SCheck {
@@ -742,8 +746,8 @@ pub fn make(prop: &str) -> Option<SCheck> {
             profile: Profile { ..d },
             nontrivial: |o| probe(o, "match_multi_tx") + probe(o, "remove_present") > 0,
             twin: false,
-            quick: 60_000,
-            thorough: 2_000_000,
+            quick: 1_500_000,
+            thorough: 30_000_000,
             rule: "",
         },
         _ => return None,
